@@ -9,7 +9,7 @@
 
 namespace {
 
-const long NONE = -1, FOREIGN = -2;
+const long NONE = -1, FOREIGN = -2, UNINIT = -3;
 
 // ------------------------------------------------------------------ concretisation
 struct Dict {
@@ -671,6 +671,7 @@ void doSetLinks(Ctx &c, Session &s, const json &g, const json &q) {
     std::vector<Ent> ts;
     for (auto &x : q) { long t = x;
         if (t == FOREIGN) { ensureForeign(c, s); ts.push_back(slot == "esources" ? mk(s.fsrc) : slot == "gframes" ? mk(s.ffr) : slot == "gtags" ? mk(s.ftag) : slot == "gmtags" ? mk(s.fmtag) : mk(s.fa)); }
+        else if (t == UNINIT) ts.push_back(slot == "esources" ? mk(nix::Source()) : slot == "gframes" ? mk(nix::DataFrame()) : slot == "gtags" ? mk(nix::Tag()) : slot == "gmtags" ? mk(nix::MultiTag()) : mk(nix::DataArray()));
         else ts.push_back(handleOf(s, t)); }
     auto arrays = [&] { std::vector<nix::DataArray> v; for (auto &e : ts) v.push_back(e.array); return v; };
     auto sources = [&] { std::vector<nix::Source> v; for (auto &e : ts) v.push_back(e.source); return v; };
